@@ -113,6 +113,7 @@ class TimerMonitor(netsim.Monitor):
         self.activity = {}    # endpoint -> (time of last new genuine packet processed or
         #                       ack-eliciting packet sent, independent PTO then)
         self.seen_dgrams = {"c": set(), "s": set()}
+        self.sent_since_rx = {}
         self.rx_time = {"c": {}, "s": {}}     # (packet type, pn) -> first delivery time
         self.processed = {"c": None, "s": None}  # delivery time of the latest packet the endpoint ACKNOWLEDGED
 
@@ -143,8 +144,14 @@ class TimerMonitor(netsim.Monitor):
         if getattr(self, "_new_rx", None) == name:
             self._new_rx = None
             self.activity[name] = (w.now, idle)
+            self.sent_since_rx[name] = False
         if any(r.ack_eliciting for d, a in sent for r in d.recs if r.opened):
-            self.activity[name] = (w.now, idle)
+            # RFC 9000 10.1: sending restarts the idle timer only for the FIRST ack-eliciting packet since the
+            # last packet that was received and processed - retransmissions into a black hole do not keep
+            # the connection alive
+            if not self.sent_since_rx.get(name):
+                self.activity[name] = (w.now, idle)
+            self.sent_since_rx[name] = True
         # what the endpoint acknowledges it has "received and processed successfully" (RFC 9000 10.1: that
         # restarts the idle timer)
         for d, a in sent:
